@@ -227,10 +227,19 @@ FILE_KINDS = ["modified", "added", "deleted", "renamed", "renamed_changed", "cop
               "binary", "binary_added", "submodule", "empty_added"]
 
 
+def tabbed(name):
+    """git appends a TAB to the names in `--- `/`+++ ` lines when they contain a space"""
+    return name + "\t" if " " in name else name
+
+
 def gen_file(rng, kind=None, prefixes=("a/", "b/"), ending=None):
     kind = kind or rng.choice(FILE_KINDS)
-    p1 = rng.choice(PATHS)
-    p2 = rng.choice([p for p in PATHS if p != p1])
+    paths = PATHS
+    if prefixes == ("", ""):
+        # diff.noprefix: a first path component that looks like a mnemonic prefix is inherently ambiguous
+        paths = [p for p in PATHS if not re.match(r"[abciow]/", p)]
+    p1 = rng.choice(paths)
+    p2 = rng.choice([p for p in paths if p != p1])
     a, b = prefixes
     f = dict(kind=kind, old=p1, new=p1, hunks=[], lines=[])
     L = f["lines"]
@@ -240,18 +249,18 @@ def gen_file(rng, kind=None, prefixes=("a/", "b/"), ending=None):
             h = gen_hunk(rng)
             f["hunks"].append(h)
     if kind == "modified":
-        L += [f"diff --git {a}{p1} {b}{p1}", "index 1111111..2222222 100644", f"--- {a}{p1}", f"+++ {b}{p1}"]
+        L += [f"diff --git {a}{p1} {b}{p1}", "index 1111111..2222222 100644", tabbed(f"--- {a}{p1}"), tabbed(f"+++ {b}{p1}")]
         hunks()
     elif kind == "added":
         f["old"] = "/dev/null"
-        L += [f"diff --git {a}{p1} {b}{p1}", "new file mode 100644", "index 0000000..2222222", "--- /dev/null", f"+++ {b}{p1}"]
+        L += [f"diff --git {a}{p1} {b}{p1}", "new file mode 100644", "index 0000000..2222222", "--- /dev/null", tabbed(f"+++ {b}{p1}")]
         h = gen_hunk(rng)
         h["lines"] = [("+", body) for _, body in h["lines"]]
         h["header"] = "@@ -0,0 +1,%d @@" % len(h["lines"]); h["frag"] = ""; h["old"] = (0, 0); h["new"] = (1, len(h["lines"]))
         f["hunks"].append(h)
     elif kind == "deleted":
         f["new"] = "/dev/null"
-        L += [f"diff --git {a}{p1} {b}{p1}", "deleted file mode 100644", "index 1111111..0000000", f"--- {a}{p1}", "+++ /dev/null"]
+        L += [f"diff --git {a}{p1} {b}{p1}", "deleted file mode 100644", "index 1111111..0000000", tabbed(f"--- {a}{p1}"), "+++ /dev/null"]
         h = gen_hunk(rng)
         h["lines"] = [("-", body) for _, body in h["lines"]]
         h["header"] = "@@ -1,%d +0,0 @@" % len(h["lines"]); h["frag"] = ""; h["old"] = (1, len(h["lines"])); h["new"] = (0, 0)
@@ -262,7 +271,7 @@ def gen_file(rng, kind=None, prefixes=("a/", "b/"), ending=None):
     elif kind == "renamed_changed":
         f["new"] = p2
         L += [f"diff --git {a}{p1} {b}{p2}", "similarity index 90%", f"rename from {p1}", f"rename to {p2}",
-              "index 1111111..2222222 100644", f"--- {a}{p1}", f"+++ {b}{p2}"]
+              "index 1111111..2222222 100644", tabbed(f"--- {a}{p1}"), tabbed(f"+++ {b}{p2}")]
         hunks()
     elif kind == "copied":
         f["new"] = p2
@@ -273,7 +282,7 @@ def gen_file(rng, kind=None, prefixes=("a/", "b/"), ending=None):
     elif kind == "mode_changed":
         f["mode"] = rng.choice([("100644", "100755"), ("100755", "100644")])
         L += [f"diff --git {a}{p1} {b}{p1}", f"old mode {f['mode'][0]}", f"new mode {f['mode'][1]}",
-              "index 1111111..2222222", f"--- {a}{p1}", f"+++ {b}{p1}"]
+              "index 1111111..2222222", tabbed(f"--- {a}{p1}"), tabbed(f"+++ {b}{p1}")]
         hunks()
     elif kind == "binary":
         L += [f"diff --git {a}{p1} {b}{p1}", "index 1111111..2222222 100644", f"Binary files {a}{p1} and {b}{p1} differ"]
@@ -310,7 +319,7 @@ def gen_git_diff(rng, nfiles=None, with_commit=None, kinds=None):
     lines, files = [], []
     if with_commit if with_commit is not None else rng.random() < 0.4:
         lines += gen_commit(rng)
-    prefixes = rng.choice([("a/", "b/")] * 4 + [("i/", "w/"), ("c/", "w/"), ("o/", "w/")])
+    prefixes = rng.choice([("a/", "b/")] * 4 + [("i/", "w/"), ("c/", "w/"), ("o/", "w/"), ("", "")])
     for i in range(nfiles or rng.randint(1, 4)):
         f = gen_file(rng, kind=(kinds[i] if kinds else None), prefixes=prefixes)
         f["first_line"] = len(lines)
